@@ -29,8 +29,8 @@ META = {
     "trusted_base": ["clang AST + vc/cppsym", "z3 / cvc5"],
     "assumptions": ["A2: poisson_distribution<int> returns a non-negative integer, normal_distribution a real; draws are a "
                     "deterministic function of the generator state (reproducibility for a given seed)",
-                    "sum lemma: a sequence of point updates by +-1 changes a column sum by the number of updates (stated, not "
-                    "machine-checked here); hence on exit of the correction loop the total is tot2 -+ delta = floor(real total)",
+                    "sum lemma L_sum (point update of a column sum) is proved in Lean 4 + Mathlib (lemmas/Sums.lean, re-checked on every "
+                    "run); hence on exit of the correction loop the total is tot2 -+ delta = floor(real total)",
                     "termination is not part of this check (known finding of C10)"],
 }
 
@@ -437,7 +437,8 @@ def link_replay(oid, extra):
     return None
 
 
-EXTRA = [battery_step]
+from vc.core.leanstep import lean_step as _lean_step
+EXTRA = [battery_step, _lean_step("Sums.lean", "C14", ["L_sum"])]
 from props.C08 import seed_case as _seed_case
 CASES = [_seed_case("C14")]       # reproducibility for a given seed starts with the script keeping the seed it was given
 if z3 is not None:
